@@ -8,8 +8,10 @@ import (
 )
 
 // effectShapes lists the externally visible effects of f in canonical form:
-//   store <addr> ← <value>     stores whose address is not rooted in a local alloc
-//   call <callee>(<args>)      calls selected by keepCall (setters, designated helpers)
+//
+//	store <addr> ← <value>     stores whose address is not rooted in a local alloc
+//	call <callee>(<args>)      calls selected by keepCall (setters, designated helpers)
+//
 // Closures are not descended into. Duplicates collapse.
 func effectShapes(f *ssa.Function, keepCall func(name string) bool) []string {
 	return effectShapesOpt(f, keepCall, false)
